@@ -105,7 +105,9 @@ Section Runs.
               end in
     let before := [((S n, tr ++ [(n, FBefore)], f), Failed OsError)] in
     let after := match p, effect p f with
-                 | PCreate _, _ => []     (* creating the empty temp file either fails or succeeds *)
+                 | PCreate _, _ =>        (* creating the work file fails after having taken effect (close() reports an
+                                             error): __enter__ removes the file again before re-raising (fix f9613d2) *)
+                     [((S n, tr ++ [(n, FAfter)], f), Failed OsError)]
                  | _, Some f' => [((S n, tr ++ [(n, FAfter)], f'), Failed OsError)]
                  | _, None => []
                  end in
